@@ -152,6 +152,11 @@ pub trait Prop: Sync + Send {
     fn abnormal_signature(&self, _case: &Value, kind: &str) -> String {
         format!("{kind}:{}", self.id())
     }
+    /// A dead worker on this case is resource exhaustion of the harness' making (the worker runs
+    /// under an address-space limit), not a verdict: the case is discarded and counted.
+    fn crash_is_resource_exhaustion(&self, _case: &Value) -> bool {
+        false
+    }
     fn max_shrink_iters(&self) -> u32 {
         600
     }
